@@ -303,22 +303,23 @@ theorem strict_flags_ok : ∀ d ∈ strictFlags, strictAssignmentOk genTemplate 
 /-- the exemption lists only name flags and options that exist -/
 theorem exemptions_live : exemptionsLiveB = true := by decide +kernel
 
-/-- Full statement "every list-valued option has a converter in `ini_config_types`" is **false** of the
-    current tree: `deprecated_calls_exclude` (a documented config-file setting) has none, so
-    `parse_section` applies `list` to the text and the value is split into characters. -/
-theorem not_list_options_typed : ¬ (∀ a ∈ attrs, listAttrTyped iniKeys a = true) := by
-  intro h
-  have : listAttrsTypedB = true := List.all_eq_true.mpr h
-  revert this
-  decide +kernel
+/-- **list_options_typed.**  Every list-valued option has a converter in `ini_config_types` and in
+    `toml_config_types` (without one, `parse_section` applies `list` to the text of a config-file value and
+    splits it into characters, while the command-line flag appends whole items). -/
+theorem list_options_typed :
+    (∀ a ∈ attrs, listAttrTyped iniKeys a = true) ∧ (∀ a ∈ attrs, listAttrTyped tomlKeys a = true) := by
+  have h1 : listAttrsTypedB = true := by decide +kernel
+  have h2 : listAttrsTypedTomlB = true := by decide +kernel
+  exact ⟨fun a ha => List.all_eq_true.mp h1 a ha, fun a ha => List.all_eq_true.mp h2 a ha⟩
 
-/-- … and it holds for every other list-valued option -/
-theorem list_options_typed_partial :
-    ∀ a ∈ attrs, knownCharSplit.contains a.name = false → listAttrTyped iniKeys a = true := by
-  have h : listAttrsTypedPartialB = true := by decide +kernel
-  intro a ha hk
-  have := List.all_eq_true.mp h a ha
-  rw [hk, Bool.false_or] at this
-  exact this
+/-- The obligation is not vacuous, and it was false of the tree before the repair 9b531e7: the row
+    `deprecated_calls_exclude` (list-valued) fails it against every converter table that lacks the key. -/
+theorem pre_repair_row_untyped (keys : List (Str × Bool)) (h : keys.lookup preRepairRow.name = none) :
+    listAttrTyped keys preRepairRow = false := by
+  unfold listAttrTyped
+  rw [h]
+  decide
+
+example : listAttrTyped [] preRepairRow = false := by decide
 
 end Config
